@@ -20,6 +20,15 @@
     S <d> <kind> <ia> <va> <le>
     m <name> <v> <dets|_> …    any other prototype method (implementation side only)
 
+    V/D take an optional last token ^b,b… = buffers detached by newTarget's `prototype` getter
+    R <v>                      v.toReversed()
+    T <v> <cmp>                v.toSorted(cmp)
+    w <v> <ia> <va>            v.with(index, value)
+    t <v> <bits|-> <k!b,…|_>   v.filter(cb): cb(k) truthy iff bit k is 1; call k detaches
+    M <v> <sp> <va>*           v.map(cb): call k returns value k (`x…@b` detaches in the callback body, `x…!b` in valueOf)
+    O <of|from|fromMap> <kind|viewid[!b,…]> <va>*   %TypedArray%.of/from applied to a built-in or user constructor
+    A <b> <ia> <ia>            buffer.slice(start, end)  (ArrayBuffer.prototype.slice)
+
   <ia>  = `_` | <int>[!b,b…] | inf | -inf      <va> = x<hex16>[!b,…] | b<dec>[!b,…]
   <sp>  = `_` | <viewid>[!b,…]                  <cmp> = `_` | r[!b,…]
 -/
@@ -40,7 +49,8 @@ def parseDets (s : String) : List Nat :=
 
 /-- split `tok` at the first `!` into (head, dets) -/
 def splitBang (tok : String) : String × List Nat :=
-  match tok.splitOn "!" with
+  -- `@` = the detach happens in the callback body instead of in valueOf: same moment for the model
+  match (tok.replace "@" "!").splitOn "!" with
   | [h] => (h, [])
   | h :: d :: _ => (h, parseDets d)
   | [] => ("", [])
@@ -105,10 +115,38 @@ def parseOp (ws : List String) : Option Op :=
   | ["X", b] => b.toNat?.map Op.detach
   | ["V", k, b, o, l] => do
       let k ← parseKind k; let b ← b.toNat?; let o ← parseIArg o; let l ← parseIArg l
-      pure (.newView k b o l)
+      pure (.newView k b o l [])
+  | ["V", k, b, o, l, pd] => do
+      let k ← parseKind k; let b ← b.toNat?; let o ← parseIArg o; let l ← parseIArg l
+      pure (.newView k b o l (parseDets (pd.replace "^" "")))
   | ["D", b, o, l] => do
       let b ← b.toNat?; let o ← parseIArg o; let l ← parseIArg l
-      pure (.newDV b o l)
+      pure (.newDV b o l [])
+  | ["D", b, o, l, pd] => do
+      let b ← b.toNat?; let o ← parseIArg o; let l ← parseIArg l
+      pure (.newDV b o l (parseDets (pd.replace "^" "")))
+  | ["R", v] => do pure (.toReversed (← v.toNat?))
+  | ["T", v, c] => do pure (.toSorted (← v.toNat?) (← parseCmp c))
+  | ["w", v, i, a] => do
+      match ← parseIArg i with
+      | some i => pure (.with_ (← v.toNat?) i (← parseVArg a))
+      | none => none
+  | ["t", v, bits, d] => do
+      let keep := if bits == "-" then [] else bits.toList.map (· == '1')
+      if d == "_" then pure (.filter (← v.toNat?) keep 0 [])
+      else
+        let (h, det) := splitBang d
+        pure (.filter (← v.toNat?) keep (← h.toNat?) det)
+  | "M" :: v :: sp :: vals => do
+      let vs ← vals.mapM parseVArg
+      pure (.map (← v.toNat?) (← parseSpecies sp) vs)
+  | "O" :: _ :: c :: vals => do
+      let vs ← vals.mapM parseVArg
+      let ct ← match parseKind c with
+        | some k => some (Ctor.builtin k)
+        | none => let (h, det) := splitBang c; h.toNat?.map (fun vid => Ctor.user vid det)
+      pure (.of_ ct vs)
+  | ["A", b, st, fi] => do pure (.abSlice (← b.toNat?) (← parseIArg st) (← parseIArg fi))
   | ["g", v, i] => do pure (.get (← v.toNat?) (← parseInt? i))
   | ["p", v, i, a] => do pure (.put (← v.toNat?) (← parseInt? i) (← parseVArg a))
   | ["f", v, a, st, fi] => do pure (.fill (← v.toNat?) (← parseVArg a) (← parseIArg st) (← parseIArg fi))
@@ -142,6 +180,7 @@ def showNum : Num → String
   | .int i => "x" ++ toHexW 16 (intToF64 i)
   | .dbl b => if f64IsNaN b then "nan" else "x" ++ toHexW 16 b
   | .big i => "b" ++ toString i
+  | .undef => "undef"
 
 def showRes : Res → String
   | .ok => "ok"
